@@ -119,17 +119,26 @@ func (k *KerberosProxy) forward(realm string, data []byte) (resp []byte, err err
 		return nil, fmt.Errorf("cannot get any kdcs (tcp or udp) for realm %s", realm)
 	}
 
-	// merge the kdcs
-	kdcs := make([]Kdc, tcpCnt+udpCnt)
-	for i := range udpKdcs {
-		kdcs[i] = Kdc{Realm: realm, Host: udpKdcs[i], Proto: "udp"}
+	// merge the kdcs, GetKDCs returns them keyed by preference order starting at 1
+	kdcs := make([]Kdc, 0, len(udpKdcs)+len(tcpKdcs))
+	for i := 1; i <= len(udpKdcs); i++ {
+		if host, ok := udpKdcs[i]; ok {
+			kdcs = append(kdcs, Kdc{Realm: realm, Host: host, Proto: "udp"})
+		}
 	}
-	for i := range tcpKdcs {
-		kdcs[i+udpCnt] = Kdc{Realm: realm, Host: tcpKdcs[i], Proto: "tcp"}
+	for i := 1; i <= len(tcpKdcs); i++ {
+		if host, ok := tcpKdcs[i]; ok {
+			kdcs = append(kdcs, Kdc{Realm: realm, Host: host, Proto: "tcp"})
+		}
 	}
 
 	replies := make(chan []byte, len(kdcs))
 	for i := range kdcs {
+		// over UDP the length prefix is removed, so there must be one
+		if kdcs[i].Proto == "udp" && len(data) < 4 {
+			continue
+		}
+
 		conn, err := net.Dial(kdcs[i].Proto, kdcs[i].Host)
 
 		if err != nil {
